@@ -289,6 +289,40 @@ func genGuardConsts(s *src, o *out) {
 		clamp = 1<<63 - 1
 	}
 	o.defZ("guards_bufsize_clamp", clamp)
+
+	// pipelineRecvAck: how the sender's chunk size evolves (thresholds in ms, growth growFactor, minChunk)
+	var fastMs, slowMs, growFactor, minChunk int64 = -1, -1, -1, -1
+	ast.Inspect(s.fn("trzszTransfer.pipelineRecvAck").Body, func(n ast.Node) bool {
+		switch n := n.(type) {
+		case *ast.BinaryExpr:
+			if s.text(n.X) == "chunkTime" && n.Op == token.LSS {
+				fastMs = s.evalInt(n.Y, nil, 0)
+			}
+			if s.text(n.X) == "chunkTime" && n.Op == token.GEQ {
+				slowMs = s.evalInt(n.Y, nil, 0)
+			}
+			if s.text(n.X) == "bufSize" && n.Op == token.MUL {
+				growFactor = s.evalInt(n.Y, nil, 0)
+			}
+		case *ast.IfStmt:
+			if b, ok := n.Cond.(*ast.BinaryExpr); ok && s.text(b.X) == "bufSize" && b.Op == token.LSS && len(n.Body.List) == 1 {
+				if a, ok := n.Body.List[0].(*ast.AssignStmt); ok && s.text(a.Lhs[0]) == "bufSize" {
+					c1, c2 := s.evalInt(b.Y, nil, 0), s.evalInt(a.Rhs[0], nil, 0)
+					if c1 == c2 {
+						minChunk = c1
+					}
+				}
+			}
+		}
+		return true
+	})
+	if fastMs < 0 || slowMs < 0 || growFactor < 0 || minChunk < 0 {
+		die("pipelineRecvAck: thresholds / growFactor / minChunk of the buffer size not found (%d %d %d %d)", fastMs, slowMs, growFactor, minChunk)
+	}
+	o.defZ("guards_ack_fast_ms", fastMs)
+	o.defZ("guards_ack_slow_ms", slowMs)
+	o.defZ("guards_grow_factor", growFactor)
+	o.defZ("guards_min_chunk", minChunk)
 }
 
 // ---- skeleton ----
@@ -426,6 +460,21 @@ func genGuardSkel(s *src) string {
 	b.WriteString(c12Hits("hash_ack_show", c12Dominators(s, "trzszTransfer.pipelineRecvHashAck", func(n ast.Node) bool {
 		_, ok := c12CallNamed(n, "onStep")
 		return ok
+	})))
+
+	// 5b. the sender's chunk buffer: every store to bufferSize with the conditions in front of it, the
+	//     capacities handed to make by the chunk writer, and the protocol-1 sender's own buffer
+	var stores []c12Hit
+	for _, fn := range c12FuncNames(s) {
+		stores = append(stores, c12Dominators(s, fn, func(n ast.Node) bool {
+			c, ok := c12CallNamed(n, "Store")
+			return ok && strings.HasSuffix(s.text(c.Fun), ".bufferSize.Store")
+		})...)
+	}
+	b.WriteString(c12Hits("bufsize_stores", stores))
+	b.WriteString(c12Hits("v1_bufsize_assign", c12Dominators(s, "trzszTransfer.sendFileData", func(n ast.Node) bool {
+		a, ok := n.(*ast.AssignStmt)
+		return ok && len(a.Lhs) == 1 && s.text(a.Lhs[0]) == "bufSize"
 	})))
 
 	// 6. every allocation / growth / repeat in the package whose size is not a constant and not the
